@@ -20,7 +20,19 @@ def alloc_case(draw, allow_fixed=True, allow_empty=True, sliver=None, max_leaves
     unit = draw(st.sampled_from(units or UNITS))
     sliver = draw(_i(0, 4)) == 0 if sliver is None else sliver
     ox, oy = draw(st.sampled_from([0, 0, 1, 3])), draw(st.sampled_from([0, 0, 2]))
-    if sliver:
+    if sliver and draw(_i(0, 3)) == 0:
+        # a flat wide cell A, two cells on top of it that meet above its middle, and two small cells at its side that meet at a
+        # height e with L/100 < e < 2L/100: the horizontal line y = e leaves too thin a piece of A (1 % of its width 2L) but a
+        # legal one once A has been cut at x = L (either orientation)
+        Lh = draw(_i(150, 400))
+        h = draw(_i(10, 30))
+        e = draw(_i(Lh // 100 + 1, max(Lh // 100 + 1, min(h - 1, 2 * Lh // 100 - 1))))
+        wr, ht = draw(_i(5, 40)), draw(_i(10, 60))
+        leaves = [[ox, oy, ox + 2 * Lh, oy + h], [ox, oy + h, ox + Lh, oy + h + ht], [ox + Lh, oy + h, ox + 2 * Lh, oy + h + ht],
+                  [ox + 2 * Lh, oy, ox + 2 * Lh + wr, oy + e], [ox + 2 * Lh, oy + e, ox + 2 * Lh + wr, oy + h]]
+        if draw(st.booleans()):
+            leaves = [[l[1] - oy + ox, l[0] - ox + oy, l[3] - oy + ox, l[2] - ox + oy] for l in leaves]  # transposed
+    elif sliver:
         W, H = draw(_i(100, 400)), draw(_i(100, 400))
         leaves = [[ox, oy, ox + W, oy + H]]
         for _ in range(draw(_i(1, max_leaves - 1))):
